@@ -322,5 +322,9 @@ def random_scenario_inline(rng, big=False):
     for c in scn['classes']:
         if rng.random() < 0.3:
             c[-1]['end'] = 'base'
-    scn['cancels'] = [rng.randrange(len(scn['top']) + 3) for _ in range(rng.choice([0, 1, 1, 2, 3]))]
+    # tasks to cancel: mostly the stepping tasks of top-level processes that await a child inline (task id = position in `top`),
+    # else any of the first tasks (other top-level processes, launched children, callbacks, nested executions)
+    awaiting = [t for t, k in enumerate(scn['top']) if any(a[0] == 'i' for st in scn['classes'][k] for a in st['code'])]
+    scn['cancels'] = [rng.choice(awaiting) if awaiting and rng.random() < 0.7 else rng.randrange(len(scn['top']) + 3)
+                      for _ in range(rng.choice([0, 1, 1, 2, 3]))]
     return scn
